@@ -48,6 +48,7 @@ const (
 	dvTLS    // "" | "on"
 	dvPeer   // "" | ip:port
 	dvBody
+	dvMethod // "" = the family's method
 )
 
 type dvValue struct {
@@ -136,7 +137,12 @@ func dvDefine() []*dvFamily {
 		{Name: "target-form", Kind: dvTarget, Reads: "Host BaseURL OriginalURL Path", Vals: []dvValue{{"origin", ""}, {"absolute", "http://abs.example"}}},
 		{Name: "X-Forwarded-For", Kind: dvHeader, Reads: "IPs IP(ProxyHeader)", Vals: hv("203.0.113.7", "203.0.113.7, 198.51.100.9", "not-an-ip, 198.51.100.9")},
 		{Name: "path", Kind: dvPath, Reads: "Path OriginalURL Params Route Bind.URI",
-			Vals: []dvValue{{"/dv/v1", "/dv/v1"}, {"/dv/v2", "/dv/v2"}, {"/dv/v1/", "/dv/v1/"}, {"/DV/v1", "/DV/v1"}, {"/dv/v%31", "/dv/v%31"}, {"/dw/v1", "/dw/v1"}}},
+			Vals: []dvValue{{"/dv/v1", "/dv/v1"}, {"/dv/v2", "/dv/v2"}, {"/dv/v1/", "/dv/v1/"}, {"/DV/v1", "/DV/v1"}, {"/dv/v%31", "/dv/v%31"}, {"/dw/v1", "/dw/v1"},
+				{"/dv/v1/x (no route)", "/dv/v1/x"}, {"/dv (no route)", "/dv"}, {"/dw/v1/x (no route)", "/dw/v1/x"}}},
+		// the method and the path together decide the dispatch: handler | 404 | 405 + Allow | 501 (what the
+		// context keeps for it: methodInt, route, matched flag, detection path and its tree bucket)
+		{Name: "method", Kind: dvMethod, Reads: "Method Route dispatch(404/405/501) Allow",
+			Vals: []dvValue{{"GET", ""}, {"DELETE", "DELETE"}, {"OPTIONS", "OPTIONS"}, {"FOO (unknown)", "FOO"}}},
 		{Name: "query", Kind: dvQuery, Reads: "Query Queries OriginalURL Bind.Query", Vals: hv("name=q1&age=3", "name=q2&age=3", "name=q1", "tags=t1&tags=t2&city=qc")},
 		{Name: "proto", Kind: dvProto, Reads: "Protocol", Vals: []dvValue{{"HTTP/1.1", "HTTP/1.1"}, {"HTTP/1.0", "HTTP/1.0"}}},
 		{Name: "Accept", Kind: dvHeader, Reads: "Accepts", Vals: hv("text/html", "application/json;q=0.9, text/plain", "*/*;q=0.1")},
@@ -156,6 +162,7 @@ func dvDefine() []*dvFamily {
 		{"origin", []string{"Host", "X-Forwarded-Host", "X-Forwarded-Proto", "X-Forwarded-Protocol", "X-Forwarded-Ssl", "X-Url-Scheme", "tls", "peer", "target-form"}},
 		{"client", []string{"X-Forwarded-For", "peer"}},
 		{"url", []string{"path", "query", "proto", "target-form"}},
+		{"dispatch", []string{"method", "path"}},
 		{"negotiation", []string{"Accept", "Accept-Charset", "Accept-Encoding", "Accept-Language"}},
 		{"conditional", []string{"Range", "If-None-Match", "If-Modified-Since", "Cache-Control"}},
 		{"identity", []string{"Cookie", "X-Requested-With", "X-Name", "X-Age"}},
@@ -203,6 +210,7 @@ func dvKey(asg []int) string {
 // render writes the request of an assignment. Header order = input order.
 func (f *dvFamily) render(asg []int) (name string, raw []byte, attr connAttr) {
 	var path, query, proto, prefix, body string
+	method := f.Method
 	var hdrs, changed []string
 	for i, in := range f.Inputs {
 		v := in.Vals[asg[i]]
@@ -228,6 +236,10 @@ func (f *dvFamily) render(asg []int) (name string, raw []byte, attr connAttr) {
 			attr.Peer = v.V
 		case dvBody:
 			body = v.V
+		case dvMethod:
+			if v.V != "" {
+				method = v.V
+			}
 		}
 	}
 	var b bytes.Buffer
@@ -235,7 +247,7 @@ func (f *dvFamily) render(asg []int) (name string, raw []byte, attr connAttr) {
 	if query != "" {
 		target += "?" + query
 	}
-	fmt.Fprintf(&b, "%s %s %s\r\n", f.Method, target, proto)
+	fmt.Fprintf(&b, "%s %s %s\r\n", method, target, proto)
 	for i := 0; i+1 < len(hdrs); i += 2 {
 		fmt.Fprintf(&b, "%s: %s\r\n", hdrs[i], hdrs[i+1])
 	}
@@ -430,7 +442,7 @@ func (ck *checker) checkDerived(cfg int, p *dvMember, e *dvEdge, probeNew, quiet
 		l.Add("traces_with_several_connections", 1)
 	}
 	f := flat(r, pi)
-	d := ck.diffBase(cfg, p.Prb, f)
+	d := ck.diffBase(cfg, p.Prb, false, f)
 	l.Outcome(fmt.Sprintf("derived family=%s pair=%s status=%s equal-to-fresh=%v", p.Fam.Name, dir, statusOf(r.Resp[pi]), len(d) == 0))
 	if e != nil && cfg == int(e.In)%len(cfgNames) && !probeNew && bitsSet(h.Hist^p.Prb)%5 == 0 {
 		l.Sample(map[string]any{"config": cfgNames[cfg], "trace": histStory(hist, p.Prb, probeNew), "differing_input": input, "direction": dir,
@@ -467,7 +479,7 @@ func (ck *checker) checkDerived(cfg int, p *dvMember, e *dvEdge, probeNew, quiet
 	}
 	sig := fmt.Sprintf("derived-value-follows-earlier-request leaked=%s differing-input=%s direction=%s conn=%s%s", dvLeaked(d), input, dir, connClass, via)
 	obs, expd := map[string]string{}, map[string]string{}
-	fresh := unpack(ck.base(cfg, p.Prb))
+	fresh := unpack(ck.base(cfg, p.Prb, false))
 	for _, k := range d {
 		obs[k], expd[k] = f[k], fresh[k]
 	}
@@ -583,6 +595,7 @@ func dvVisibility() (visible int, blind []string) {
 				continue
 			}
 			pr := m.letter()
+			wideApp = false
 			r := runTraceOpt(cfg, [][]byte{pr.Raw}, []bool{true}, []connAttr{pr.Conn}, true)
 			if r.PanicAt >= 0 {
 				core.Fatal("member %s panics on a fresh app: %s", pr.Name, r.PanicMsg)
@@ -621,11 +634,12 @@ func (ck *checker) dropDerived() {
 				continue
 			}
 			ck.baseline[c][p] = ""
-			if now := ck.base(c, p); now != old {
+			if now := ck.base(c, p, false); now != old {
 				core.Fatal("fresh-app observation drifted during the run: cfg=%s probe=%s keys=%v", cfgNames[c], probes[p].Name, diffKeys(unpack(now), unpack(old)))
 			}
 		}
 		ck.baseline[c] = append([]string(nil), ck.baseline[c][:mainProbes]...)
+		ck.baselineW[c] = append([]string(nil), ck.baselineW[c][:mainProbes]...)
 	}
 	for i := mainHist; i < len(historyAlphabet); i++ {
 		historyAlphabet[i] = nil
